@@ -17,6 +17,7 @@ DRIVERS = {
     'array_ops': {'vm': 'array_ops'},
     'while_loop': {'vm': 'while_loop'},
     'iteration': {'vm': 'iteration'},
+    'for_loop': {'vm': 'iteration'},
     'config_ops': {'vm': 'config_ops'},
     'waituntil': {'vm': 'waituntil'},
     'operators_total': {'vm': 'operators_total'},
